@@ -18,7 +18,9 @@ RULE = ('Hypothesis: lists of 0-8 messages - sysex with payload lengths 0,1,2,..
         'complete messages; invalid texts (non-hex character, odd digit count, one-digit tokens, 0x prefixes, signs, '
         'underscores, whitespace inside a pair). Oracle: read(write(L)) is exactly the sysex messages of L, in order, equal '
         'data, [] when none; hand-written files read to the expected sysex list; invalid text raises ValueError. '
-        'Non-trivial = >= 2 sysex messages of different length with a non-sysex message between them; distinct by hash.')
+        'Non-trivial = >= 2 sysex messages of different length with a non-sysex message between them; distinct by hash.'
+        ' Later additions: three files that stop inside a message are read before every hand-written file, text files'
+        ' begin with stray data bytes / F7, the file is read again after the first result was edited.')
 ASSUMPTIONS = ['files live in a TemporaryDirectory that is removed at the end of every case']
 
 WS = [' ', '\t', '\n', '\r', '\x0b', '\x0c']
@@ -98,9 +100,26 @@ def check_file(raw, want, invalid):
             return [fail('read-raises', f'{bytes(raw)[:80]!r}: {exc!r}', exc=exc_sig(exc))]
         except Exception as exc:  # noqa: BLE001
             return [fail('read-wrong-exception', f'{bytes(raw)[:80]!r}: {exc!r}', exc=exc_sig(exc))]
+        else:
+            # the messages returned belong to the caller: reading the same file again after editing them gives the file's
+            # contents again (no interning of results across calls)
+            again = None
+            if not invalid and got:
+                try:
+                    snap = [m.copy() for m in got]
+                    for m in got:
+                        m.time = 8180
+                        m.data += (1,)
+                    again = mido.read_syx_file(path)
+                    got = snap
+                except Exception as exc:  # noqa: BLE001
+                    return [fail('read-raises', f'second read of {bytes(raw)[:80]!r}: {exc!r}', exc=exc_sig(exc))]
     if invalid:
         return [fail('invalid-text-accepted', f'{bytes(raw)[:80]!r} -> {got!r}'[:400])]
-    return _compare(got, [tuple(w) for w in want], 'hand-written file')
+    out = _compare(got, [tuple(w) for w in want], 'hand-written file')
+    if again is not None:
+        out += _compare(again, [tuple(w) for w in want], 'hand-written file read again after editing the first result')
+    return out
 
 
 def layout(payloads, style):
